@@ -23,4 +23,5 @@ MCTag4 == 1..4
 MCB4q == {0, 1, 3}
 MCTag4q == {1, 3, 4}
 MCDepths == {0, 1, 2}
+MCDeepen == {3, 4}
 =============================================================================
